@@ -117,3 +117,5 @@ func thorough() bool { return os.Getenv("VERIF_TIER") == "thorough" }
 func bOr(a, b bool) bool      { return a || b }
 func bAnd(a, b bool) bool     { return a && b }
 func bImplies(a, b bool) bool { return !a || b }
+
+func symKey(x uint64) string { return fmt.Sprint(x) }
